@@ -1103,7 +1103,10 @@ class Gen(object):
                 return b"MODE " + r.choice([self._anychan(s), self._anynick(), s.nick or b"x"])
             if k < 0.22:
                 tgt = s.nick if r.random() < 0.7 and s.nick else self._anynick()
-                return b"MODE %s %s" % (tgt, r.choice([b"+i", b"-i", b"+G", b"-G", b"+iG", b"+o", b"+r", b"i"]))
+                return b"MODE %s %s" % (tgt, r.choice([b"+i", b"-i", b"+G", b"-G", b"+iG", b"+o", b"+r", b"i",
+                                                      # non-ASCII user modes, also many of them (the echo is long)
+                                                      b"+\xc3\xbc", b"+i\xe2\x82\xacG", b"-\xf0\x9f\x98\x80", b"+" + b"\xc3\xa9" * r.randint(2, 240),
+                                                      b"+i" + b"\xe2\x82\xac" * r.randint(40, 100)]))
             c = self._anychan(s)
             if r.random() < 0.15:
                 # compound mode strings: several changes in one command, a parameterless list query first / in the middle
@@ -1571,11 +1574,15 @@ class Gen(object):
                 cfg["caphmac"], cfg["capurl"] = self.secret, b"http://captcha.example"
                 self._F(cfg)
             M(o, b"MODE %s +x" % c)
-            if r.random() < 0.35:
-                M(o, b"MODE %s +i" % c)          # both gates: a solved captcha does not replace the invitation
-            if r.random() < 0.4:
+            both = r.random() < 0.5
+            if both:
+                # both gates: a solved captcha does not replace the invitation
+                M(o, b"MODE %s +i" % c)
+                M(x, b"JOIN %s %s" % (c, self._token("ok", cmd=b"join", arg=c)))
+                M(x, b"PART " + c)
+            if not both and r.random() < 0.4:
                 M(o, b"MODE %s +b %s" % (c, r.choice([(x.nick or b"x") + b"!*@*", b"*!*@" + x.ra, b"*!*@robust/0x%x" % x.sid, b"*!*@*"])))
-            if r.random() < 0.3:
+            if not both and r.random() < 0.3:
                 self.keys[lc] = b"sesame"
                 M(o, b"MODE %s +k sesame" % c)
             M(x, b"JOIN " + c)
@@ -1680,6 +1687,9 @@ class Gen(object):
             self._C()
         elif name == "holds" and self.link and self.link.alive:
             n = r.choice(self.nicks)
+            n2 = r.choice([q for q in self.nicks if q != n] or [b"Held2"])
+            M(self.link, b"SVSHOLD %s %d :%s" % (n2, r.choice([30, 3600]), r.choice([b"", b" "]) if r.random() < 0.8 else b"x"))
+            M(x, b"NICK " + n2)
             M(self.link, b"SVSHOLD %s %d :%s" % (n, r.choice([30, 3600]), r.choice([b"held", b"", b"held by services", b" "])))
             M(x, b"NICK " + n)
             M(x, b"PING :later", big=r.random() < 0.5)
@@ -2112,12 +2122,24 @@ def mon_c15(tr):
     (RFC 1459: the prefix is optional; the code omits it only on ERROR lines and on lines that go to services links only)."""
     F = []
     links = set()
+    def _u8(b):
+        try:
+            b.decode("utf-8")
+            return True
+        except UnicodeDecodeError:
+            return False
+    # C15_outputs_utf8: a history whose entries carry well-formed text only produces well-formed lines (the API decodes JSON,
+    # so real entries always are; the generator's raw-byte histories are exempt)
+    clean_in = all(_u8(e.get("data", b"")) and _u8(e.get("auth", b"")) and _u8(e.get("toml", b"")) for e in tr.entries) and _u8(tr.case["net"])
     for i, st in enumerate(tr.steps):
         if st.ran and st.st:
             links |= {k[0] for k, s in st.st.sessions.items() if s and s["srv"]}
         origin = {"M": "post", "D": "delete"}.get(tr.entries[i]["k"], tr.entries[i]["k"])
         for m in st.msgs:
             d = m.data
+            if clean_in and not _u8(d):
+                F.append(("c15:ill-formed-output", "a history of well-formed entries produced a line that is not well-formed UTF-8 (each such byte "
+                          "reaches the client as U+FFFD, 3 bytes): %r" % d[:200], i))
             if len(d) > 510:
                 F.append(("c15:len", "output line of %d bytes" % len(d), i))
             else:
